@@ -192,6 +192,19 @@ func (u *Universe) StrLit(s string) string {
 	return n
 }
 
+// strLitContent: the Go string a literal constant stands for.
+func (u *Universe) strLitContent(name string) (string, bool) {
+	if !strings.HasPrefix(name, "strlit_") {
+		return "", false
+	}
+	for s, n := range u.strLits {
+		if n == name {
+			return s, true
+		}
+	}
+	return "", false
+}
+
 // strDistinct returns an assertion that all string literals are pairwise distinct.
 func (u *Universe) strDistinct() string {
 	if len(u.strLits) < 2 {
